@@ -21,6 +21,7 @@ type Clause struct {
 
 type LoopSpec struct {
 	Invariants []Clause
+	Decreases  []Clause // variant: a non-negative integer expression that strictly decreases on every iteration
 	Unroll     int
 }
 
@@ -390,6 +391,8 @@ func parseContractFile(path, pkgPath string) (*ContractFile, error) {
 			switch fields[2] {
 			case "invariant":
 				addClause(&ls.Invariants, after, ln+1)
+			case "decreases":
+				addClause(&ls.Decreases, after, ln+1)
 			case "unroll":
 				k, err := strconv.Atoi(after)
 				if err != nil {
